@@ -23,21 +23,49 @@ func init() {
 	}
 }
 
-var reFrame = regexp.MustCompile(`(?m)^  ([^\s(]+)\(`)
+var reFrame = regexp.MustCompile(`(?m)^  (\S+)\(\)\s*$`)
 
+// raceReports: the detector's reports in which at least one of the two conflicting accesses is performed by library code
+// (first non-runtime frame of the access stack inside gomavlib or pion). A report whose two accesses are both in harness
+// code is a defect of the harness, not of the library: it is counted apart (stat "harness-races") and must be fixed here.
 func raceReports() []string {
 	b, err := os.ReadFile(raceLog)
 	if err != nil {
 		return nil
 	}
 	var reps []string
+	harness := 0
 	for _, r := range strings.Split(string(b), "==================") {
-		if strings.Contains(r, "WARNING: DATA RACE") {
+		if !strings.Contains(r, "WARNING: DATA RACE") {
+			continue
+		}
+		lib := false
+		for _, sec := range strings.Split(r, "\n\n") {
+			first := strings.SplitN(strings.TrimLeft(sec, "\n"), "\n", 2)[0]
+			if !(strings.Contains(first, " at 0x") && strings.Contains(first, "by ")) {
+				continue // goroutine creation stacks
+			}
+			for _, m := range reFrame.FindAllStringSubmatch(sec, -1) {
+				if strings.HasPrefix(m[1], "runtime.") || strings.HasPrefix(m[1], "sync.") || strings.HasPrefix(m[1], "sync/atomic.") {
+					continue
+				}
+				if strings.Contains(m[1], "github.com/bluenviron/gomavlib/v3") || strings.Contains(m[1], "github.com/pion/") {
+					lib = true
+				}
+				break
+			}
+		}
+		if lib {
 			reps = append(reps, r)
+		} else {
+			harness++
 		}
 	}
+	harnessRaces = harness
 	return reps
 }
+
+var harnessRaces int
 
 func raceSummary(rep string) string {
 	var fr []string
@@ -91,7 +119,23 @@ func genC15(r *rngT, n int, tier string) {
 	genC13(newRng(r.Int63()), n/6+1, tier)
 	genC10(newRng(r.Int63()), n/3+1, tier)
 	genC16(newRng(r.Int63()), n/3+1, tier)
+	// stream-request bookkeeping under fire: many channels, the same few senders on all of them, all at once
+	defineDialect("common")
+	for i := 0; i < n/6+2; i++ {
+		var hs []string
+		for c := 0; c < 4+r.Intn(3); c++ {
+			var as []string
+			for j := 0; j < 30; j++ {
+				as = append(as, fmt.Sprintf("%d.%d.A", 1+r.Intn(3), 1+r.Intn(2)))
+			}
+			hs = append(hs, strings.Join(as, ","))
+		}
+		op := fmt.Sprintf("srcheck 1 common 4 %s %s", strings.Join(hs, ";"), []string{"mem", "tcp"}[r.Intn(2)])
+		emit(op, implSrcheck(strings.Split(op, " ")))
+		stat("c15-srstress")
+	}
 	out.Flush()
 	emit(fmt.Sprintf("racecheck end %d -", len(raceReports())-raceSeen), "ok")
 	stat("op:racecheck")
+	stats["harness-races"] = harnessRaces
 }
